@@ -86,6 +86,7 @@ NestCfgs ==
   {[Base EXCEPT !.nodes = <<Leaf(TRUE, FALSE, 1), Leaf(FALSE, FALSE, 1), Leaf(TRUE, TRUE, 1), FlowNode(1), FlowNode(s)>>, !.top = 5,
                 !.conns = <<ConnSeq(4, PairsIn, ti) \o ConnSeq(5, PairsOut, to)>>, !.acts = {1, 2}, !.outs = {"ok"}] :
       ti \in [1..3 -> Targets2], to \in [1..3 -> TargetsOut], s \in {4, 3}}
+NestSmallCfgs == {c \in NestCfgs : \A i \in 1..Len(c.conns[1]) : c.conns[1][i].act = 1}
 NestErrCfgs ==
   {[Base EXCEPT !.nodes = <<Leaf(TRUE, FALSE, 1), Leaf(FALSE, FALSE, 1), Leaf(TRUE, TRUE, 1), FlowNode(1), FlowNode(4)>>, !.top = 5,
                 !.conns = <<ConnSeq(4, PairsIn, ti) \o ConnSeq(5, PairsOut, to)>>, !.acts = {1}, !.outs = {"ok", "err"}] :
@@ -112,6 +113,7 @@ Cfgs == CASE Family = "single"       -> SingleCfgs
           [] Family = "rerun"        -> RerunCfgs
           [] Family = "flowbatch"    -> FlowBatchCfgs
           [] Family = "nest"         -> NestCfgs
+          [] Family = "nestsmall"    -> NestSmallCfgs
           [] Family = "nesterr"      -> NestErrCfgs
           [] Family = "nest3"        -> Nest3Cfgs
           [] Family = "nilstart"     -> NilStartCfgs
